@@ -314,8 +314,30 @@ C04_THEOREMS = ["Acv.C04.data_failure_is_never_a_report", "Acv.C04.report_only_a
                 "Acv.C04.process_input_checks_decode", "Acv.C04.swallowed_decode_error_reports", "Acv.C11.no_opaque"]
 
 
+def hist_stream_c04(ctx):
+    n = 24 if ctx.quick() else 400
+    lines = gen_cases("hist", n, ctx.seed * 1000 + 4)
+    impl = run_impl(lines, jobs=16)
+    bad = 0
+    docs = 0
+    for line, i in zip(lines, impl):
+        case = json.loads(line)
+        docs += len(case["docs"])
+        if i.get("outcome") != "ok":
+            continue
+        for k, p in enumerate(i["positions"]):
+            if case["kinds"][k] in ("jsonld-reject", "undecodable", "empty-text") and (p["compiled"] != "err" or p["fresh"] != "err"):
+                bad += 1
+                ctx.violation(f"C04:history:{case['kinds'][k]}", f"position {k} of a history of {len(case['docs'])} documents: {case['kinds'][k]} data ({len(case['docs'][k])} bytes) gave compiled={p['compiled']} fresh={p['fresh']} instead of an error (previous document kinds: {case['kinds'][:k][-3:]})",
+                              {"case": case, "impl": i})
+                break
+    ctx.coverage.setdefault("streams", {})["hist"] = {"histories": len(lines), "documents": docs}
+    ctx.coverage["evaluations"] = ctx.coverage.get("evaluations", 0) + docs
+    ctx.oblige("search:unreadable documents inside histories (after long rejected documents, valid ones, repeats) are always errors", bad == 0)
+
+
 def check_C04(ctx):
-    return skeleton_check(ctx, "C04", "Acv.Props.C04", C04_THEOREMS,
+    return skeleton_check(ctx, "C04", "Acv.Props.C04", C04_THEOREMS, extra=hist_stream_c04,
         rule="malformed data corpus (empty, whitespace, truncations of a fixture at 24 offsets, BOM/UTF-16, RAML source, single quotes, NaN, trailing comma; JSON-LD rejects: @type number, @id array, @context number, @value+@id, bad @language, @reverse scalar, keyword redefinition) x 4 validating entry points",
         assumptions=["json-gold's rejection set and encoding/json's decoder are dependencies: which documents they reject is observed, not proved"])
 
@@ -366,6 +388,8 @@ def cmp_hist(case, i, m):
     for k, p in enumerate(i["positions"]):
         if not p["same"]:
             return ("hist-differs", f"position {k} ({case['kinds'][k]}) of a history of {len(case['docs'])} documents: compiled-profile result ({p['compiled']}) differs from a fresh validation ({p['fresh']})")
+        if not p.get("repeatSame", True):
+            return ("hist-repeat-differs", f"position {k} ({case['kinds'][k]}) of a history of {len(case['docs'])} documents: the same document gave a different report than at its first occurrence (documents in between: {case['kinds'][:k][-3:]})")
         if p["compiled"] == "panic":
             return ("hist-panic", f"position {k} ({case['kinds'][k]}): panic")
         if case["kinds"][k] in ("jsonld-reject", "undecodable", "empty-text") and p["compiled"] != "err":
